@@ -184,7 +184,7 @@ def _surround(core, nb, length, circular):
 
 def gen_record_spec(rng, index, flavour, big=False):  # pylint: disable=too-many-branches
     length = 100 * (rng.randint(200, 500) if big else rng.randint(6, 24))
-    circular = rng.random() < 0.5
+    circular = rng.random() < (0.75 if flavour == "regions" else 0.5)
     spec = {"id": f"r{index:03d}", "seed": rng.getrandbits(32), "length": length, "circular": circular,
             "dirt": rng.choice([0, 0, 3, 40]), "index": index + 1, "flavour": flavour}
     if rng.random() < 0.15:
@@ -214,7 +214,7 @@ def gen_record_spec(rng, index, flavour, big=False):  # pylint: disable=too-many
     if flavour == "regions":
         protos = []
         cores = rng.sample(cds, min(len(cds), rng.randint(1, 3)))
-        if circular and cds[0]["slot"] is None and rng.random() < 0.7 and cds[0] not in cores:
+        if circular and cds[0]["slot"] is None and rng.random() < 0.85 and cds[0] not in cores:
             cores.append(cds[0])
         for core_cds in cores:
             product = rng.choice(PRODUCTS)
@@ -228,7 +228,7 @@ def gen_record_spec(rng, index, flavour, big=False):  # pylint: disable=too-many
             a = rng.randrange(0, length // 100)
             b = rng.randrange(a + 1, length // 100 + 1)
             spec["subregions"] = [[100 * a, 100 * b]]
-        spec["warm"] = rng.random() < 0.7
+        spec["warm"] = rng.random() < 0.8
     for entry in cds:
         entry.pop("slot", None)
     spec["cds"] = cds
@@ -279,16 +279,16 @@ def gen_plan(ctx, round_index, quick):  # pylint: disable=too-many-locals,too-ma
         main.append({"sid": sid("a"), "kind": "arith", "k": k, "n": n, "pattern": pattern, "args": args,
                      "generator_args": rng.random() < 0.4, "via_config": rng.random() < 0.2})
     # B. record functions: every cell gets one function; the assignment rotates with the round
-    # (quick tier: every second cell, which half alternates with the seed)
+    # (quick tier: a third of the cells, spread over every batch class and all k; which third depends on the seed)
     turn = 0
     for cell, (k, n) in enumerate(GRID):
-        if quick and (cell + ctx.seed) % 2:
+        if quick and (k + batches(k).index(n) + ctx.seed) % 3:
             continue
-        fn = RECORD_FNS[(turn + round_index) % len(RECORD_FNS)]
+        fn = RECORD_FNS[(turn + round_index + ctx.seed) % len(RECORD_FNS)]
         turn += 1
         main.append(gen_record_scenario(rng, sid("r"), fn, k, n, pick_pattern(rng)))
     # C. raising tasks
-    raise_cells = [(k, n) for k in (1, 2, 3, 7, 16) for n in sorted({1, k, 3 * k})]
+    raise_cells = [(k, n) for k in (1, 2, 5, 16) for n in sorted({1, k, 3 * k})]
     if not quick:
         raise_cells = [(k, n) for k, n in GRID if n > 0]
     for k, n in raise_cells:
@@ -303,7 +303,7 @@ def gen_plan(ctx, round_index, quick):  # pylint: disable=too-many-locals,too-ma
         main.append({"sid": sid("x"), "kind": "raise", "k": k, "n": n, "pattern": pattern, "raisers": raisers,
                      "delays": gen_delays(rng, n, pattern), "generator_args": rng.random() < 0.4})
     # F. parallel_execute exit codes
-    exec_ks = (1, 2, 4, 16) if quick else (1, 2, 3, 4, 7, 8, 12, 16)
+    exec_ks = (1, 3, 16) if quick else (1, 2, 3, 4, 7, 8, 12, 16)
     for k in exec_ks:
         for n in batches(k) if not quick else sorted({0, 1, k, 3 * k}):
             pattern = rng.choice(["desc", "front", "random", "first"])
